@@ -7,7 +7,9 @@
     prepare_data / restore_data pair, on the implementation alone;
 (c) oracle: every malformed kind, at random points of random training histories, fed to fit /
     partial_fit / predict of the clustering estimators: must raise, and the full snapshot of the
-    estimator must be the same before and after.
+    estimator must be the same before and after.  The malformed kinds include multi-row batches whose
+    per-row complement-coding errors cancel over the batch (complement half joined to the wrong rows,
+    +delta / -delta in different rows): validation is row-wise.
 """
 from __future__ import annotations
 
@@ -192,7 +194,7 @@ def tie(ctx):
             else:
                 V = unit_matrix(r, nn, dd)
             kind = r.choice(["valid", "valid", "gt1", "lt0", "width", "nonbinary", "notcc", "oddwidth", "sum-inside",
-                             "sum-outside"])
+                             "sum-outside", "rows-cancel"])
             V = V.copy()
             a, b = r.randrange(V.shape[0]), r.randrange(V.shape[1])
             if kind == "gt1":
@@ -209,6 +211,11 @@ def tie(ctx):
                 V[a, b] = V[a, b] + 1 / 128 if V[a, b] < 1 else V[a, b] - 1 / 128
             elif kind == "sum-outside" and cls == "fuzzy":
                 V[a, b] = V[a, b] + 1 / 64 if V[a, b] < 0.9 else V[a, b] - 1 / 64
+            elif kind == "rows-cancel" and cls == "fuzzy" and nn >= 2:
+                # complement half joined to the wrong rows: the row sums are off, the sum over the batch is not
+                V[:, dd:] = V[::-1, dd:] if r.random() < 0.5 else np.roll(V[:, dd:], 1, axis=0)
+                if float(np.max(np.abs(V.sum(axis=1) - dd))) > 0.01:
+                    cov.hit("validate:fuzzy:rows-cancel:some-row-off-batch-sum-right")
             w = V.shape[1]
             dim = r.choice([None, None, w, w, w + 1, max(1, w - 1), 2 * w])
             if kind == "width" and dim is None:
@@ -721,7 +728,51 @@ def malform(r, Xv, mk, col_lo, col_hi, cls):
         extra = X[:, col_lo:col_lo + 1]
         blk = np.hstack([raw, extra, 1 - raw, 1 - extra])
         X = np.hstack([X[:, :col_lo], blk, X[:, col_hi:]])
+    elif mk == "ccrows":
+        # the complement half joined to the wrong rows (reversed / rotated / shuffled row order): every entry in range,
+        # width right, every COLUMN sum and the sum over the batch right, the rows not complement coded
+        n, w2 = X.shape[0], (col_hi - col_lo) // 2
+        how = r.choice(["reverse", "rotate", "shuffle"])
+        if how == "reverse":
+            perm = list(range(n))[::-1]
+        elif how == "rotate":
+            k = r.randint(1, n - 1)
+            perm = [(t + k) % n for t in range(n)]
+        else:
+            perm = list(range(n))
+            r.shuffle(perm)
+        X[:, col_lo + w2:col_hi] = 1.0 - X[perm, col_lo:col_lo + w2]
+    elif mk == "cccancel":
+        # row-wise errors of opposite sign: +delta in one entry of some rows, -delta in one entry of as many other
+        # rows (all entries stay in [0,1]); the sum over the batch is the one of a complement coded matrix
+        n = X.shape[0]
+        rows_ = list(range(n))
+        r.shuffle(rows_)
+        delta = r.choice([0.5, 0.25, 0.125, 0.0625])
+        for t in range(r.randint(1, n // 2)):
+            up, dn = rows_[2 * t], rows_[2 * t + 1]
+            bu = r.choice([c for c in range(col_lo, col_hi) if X[up, c] + delta <= 1.0])
+            bd = r.choice([c for c in range(col_lo, col_hi) if X[dn, c] - delta >= 0.0])
+            X[up, bu] += delta
+            X[dn, bd] -= delta
     return X
+
+
+ROWWISE = ("ccrows", "cccancel")
+
+
+def rowwise_cancelling(r, make_valid, lo, hi, mk, cls):
+    """a matrix that is in range and of the right width, whose rows are NOT complement coded in columns [lo, hi)
+    (some row sum is off by >= 1/16, far beyond the 0.01 the validation tolerates) although the deviations cancel
+    over the batch; None when the generated valid rows are all alike"""
+    for _ in range(12):
+        Xv = make_valid(r.randint(2, 6))
+        Xb = malform(r, Xv, mk, lo, hi, cls)
+        blk = Xb[:, lo:hi]
+        dev = blk.sum(axis=1) - (hi - lo) / 2.0
+        if float(np.max(np.abs(dev))) >= 1 / 16 and abs(float(dev.sum())) <= 1e-9 and in_unit(Xb) and Xb.shape == Xv.shape:
+            return Xb
+    return None
 
 
 def kinds_for(cls, trained):
@@ -732,6 +783,8 @@ def kinds_for(cls, trained):
         ks += ["notcc", "oddwidth+", "oddwidth-"]
     if trained:
         ks += ["width+", "width-"] if cls != "FuzzyART" else ["width+cc"]
+    if cls == "FuzzyART":
+        ks += list(ROWWISE)       # last: the random stream of the kinds above is the one it always was
     return ks
 
 
@@ -825,7 +878,13 @@ def _rejection_one(ctx, r, kind, i):
     for mk in kinds_for(mcls, trained):
         n = r.randint(1, 5)
         Xv = valid_data(r, kind, cls, n, d, chans, ds)
-        if mk == "oddwidth+":
+        if mk in ROWWISE:
+            Xb = rowwise_cancelling(r, lambda n_: valid_data(r, kind, cls, n_, d, chans, ds), lo, hi, mk, mcls)
+            if Xb is None:
+                cov.hit(f"rejection-skip:{mk}:all-rows-alike")
+                continue
+            cov.hit(f"malformed:{mk}:row-sums-off-batch-sum-right:{'trained' if trained else 'fresh'}")
+        elif mk == "oddwidth+":
             Xb = malform(r, Xv, "width+", lo, hi, mcls)
         elif mk == "oddwidth-":
             Xb = malform(r, Xv, "width-", lo, hi, mcls)
